@@ -239,15 +239,18 @@ def eqTy (le : LeafKind → List Nat → List Nat → Bool) (m : Mem) : Ty → N
   | .record fs, a, b => eqFields le m fs LayoutBuilder.new a b
   | .enum vs, a, b => if m a = m b then eqVariant le m vs (m a) a b else false
 /-- the field chain of `generate_eq_body_record` / of one variant: an
-    uninhabited field is skipped, a zero-sized one compares equal
-    (`call_eq_by_ptr`), the others are compared by their own function -/
+    uninhabited field is skipped; a field without IR value (zero-sized and
+    not a registered type: `is_reference_type` = false, `lower_type` = None)
+    compares equal without being looked at (`call_eq_by_ptr`); the others are
+    compared by their own function — a zero-sized REGISTERED field too: it is
+    a reference type, so the runtime's eq function is called on its address -/
 def eqFields (le : LeafKind → List Nat → List Nat → Bool) (m : Mem) : Tys → LayoutBuilder → Nat → Nat → Bool
   | .nil, _, _, _ => true
   | .cons t ts, bd, a, b =>
     match layoutOf t with
     | none => eqFields le m ts bd a b
     | some l =>
-      (if l.get_size = 0 then true else eqTy le m t (a + (bd.add l).2) (b + (bd.add l).2))
+      (if noIrValue t then true else eqTy le m t (a + (bd.add l).2) (b + (bd.add l).2))
         && eqFields le m ts (bd.add l).1 a b
 /-- the `Switch` on the left discriminant: one branch per variant, default
     `false`; an uninhabited variant returns `true` -/
